@@ -212,6 +212,9 @@ def truthy(v):
         return v.t != 0
     if isinstance(s, OptS):
         return z3.Not(opt_is_none(v.t))
+    if s == STR:
+        from .engine import strlit
+        return v.t != strlit("")
     if s == ANY:
         return None
     return None
